@@ -119,7 +119,9 @@ def cases(draw: Any, tier: str) -> dict:
             "future_annotations": d.pct(35),
             # before the call another context is entered and left again: "foreign" = made with an explicit parent
             # that is not the current context, "inner" = an ordinary nested one
-            "block": d.weighted([(None, 70), ("foreign", 18), ("inner", 12)])}
+            "block": d.weighted([(None, 70), ("foreign", 18), ("inner", 12)]),
+            # scale: an async factory that takes long; a task that has already made many failing injected calls
+            "slow_factory": d.weighted([(0, 94), (35, 3), (100, 3)]), "prior_failures": d.weighted([(0, 94), (16, 2), (20, 2), (40, 2)])}
 
 
 def strategy(prop: str, tier: str) -> st.SearchStrategy:
@@ -252,6 +254,7 @@ class OneRun:
         self.events: list[tuple] = []
         self.result: Any = None
         self.harness_exc: BaseException | None = None
+        self.prior_problem: str | None = None
         self.labels: dict[int, str] = {}
 
     def label(self, obj: Any) -> Any:
@@ -316,6 +319,8 @@ class OneRun:
                         async def fac(inj: dict = inj, key: str = key) -> Any:  # type: ignore[misc]
                             self.fcalls[key] = self.fcalls.get(key, 0) + 1
                             await anyio.lowlevel.checkpoint()
+                            if case.get("slow_factory"):
+                                await anyio.sleep(case["slow_factory"])  # (virtual seconds: a factory may take long)
                             return new(inj, "generated")
                     ctx.add_resource_factory(fac, inj["rname"], types=[T])
 
@@ -378,6 +383,39 @@ class OneRun:
             populate(ctx, "call")
             await side_population()
             await block(outer)
+            if case.get("prior_failures"):
+                # the task has a history of injected calls that failed for want of a resource: each of them raises
+                # ResourceNotFound, and none of them changes what the next call gets
+                from asphalt.core import ResourceNotFound as _RNF
+                from asphalt.core import inject as _inject
+                from asphalt.core import resource as _resource
+
+                def sync_probe(*, r=_resource("no_such_resource")):  # type: ignore[no-untyped-def]
+                    return r
+
+                sync_probe.__annotations__ = {"r": T1}
+
+                async def async_probe(*, r=_resource("no_such_resource")):  # type: ignore[no-untyped-def]
+                    return r
+
+                async_probe.__annotations__ = {"r": T1}
+                sp, ap = _inject(sync_probe), _inject(async_probe)
+                for k in range(case["prior_failures"]):
+                    try:
+                        if self.decorated:
+                            await ap() if case["is_async"] else sp()
+                        elif case["is_async"]:
+                            await get_resource(T1, "no_such_resource")
+                        else:
+                            get_resource_nowait(T1, "no_such_resource")
+                    except _RNF:
+                        continue
+                    except Exception as exc:
+                        self.prior_problem = f"failing call #{k + 1} raised {short_exc(exc)} instead of ResourceNotFound"
+                        break
+                    else:
+                        self.prior_problem = f"failing call #{k + 1} did not raise"
+                        break
             if any(i["annot"] == "str_late" for i in case["injected"]):
                 # the annotation names a class that the function's module does not define yet: a call
                 # made now cannot resolve it (whatever it does is not judged) - one made after the
@@ -508,6 +546,10 @@ def run_case(case: dict, prop: str) -> Outcome:
         labs.add("annot=" + inj["annot"])
     if case.get("block"):
         labs.add("block=" + case["block"])
+    if case.get("slow_factory"):
+        labs.add("slow-factory")
+    if case.get("prior_failures"):
+        labs.add("prior-failures")
     if case["negative"]:
         labs.add("negative=" + case["negative"])
         try:
@@ -547,6 +589,8 @@ def run_case(case: dict, prop: str) -> Outcome:
         runs.append(r)
     dec, exp = runs
     src = source(case, True)
+    if dec.prior_problem:
+        disc("prior-failures", f"a task makes {case['prior_failures']} injected calls for a resource that does not exist: {dec.prior_problem}")
     if dec.result != exp.result:
         kind = "result"
         if exp.result[0] == "raise" and dec.result[0] == "ok":
@@ -586,7 +630,7 @@ def shrink_candidates(case: dict):
             c = copy.deepcopy(case)
             del c["injected"][i]
             yield c
-    for key, val in (("method", False), ("call", "same"), ("backend", "asyncio"), ("sched_seed", 0), ("block", None), ("second_call", False)):
+    for key, val in (("method", False), ("call", "same"), ("backend", "asyncio"), ("sched_seed", 0), ("block", None), ("second_call", False), ("slow_factory", 0), ("prior_failures", 0)):
         if case.get(key) != val:
             c = copy.deepcopy(case)
             c[key] = val
